@@ -67,6 +67,7 @@ struct PipeSpec {
     plugin: u8,          // 0 none, 1 drop-skip (harness), 2 FileTransfer (real), 3 both
     sort: bool,
     filter: bool,
+    filter_kind: u8, // 0: one negative filter (apid DROP), 1: positive filters (apid APID / ecu ECUD), 2: positive + negative (ctid SKIP)
 }
 impl PipeSpec {
     fn stages(&self) -> Vec<&'static str> {
@@ -173,8 +174,26 @@ struct RunOut {
     panics: Vec<(String, String)>,
     table: Option<Vec<Value>>,
     full_hits: u64,
+    file_hashes: Vec<u32>,                 // per received message: hash of what a DLT file keeps of it (no index, no lifecycle)
     folds: Vec<(String, u64, Vec<Value>)>, // observer, number of polls, folded table (after one final poll)
     poll_seq: Vec<Value>,                  // distinct (max refresh idx, content hash) pairs seen by the observer thread
+}
+
+/// hash of the fields a written DLT file keeps
+fn file_hash(m: &DltMessage) -> u32 {
+    let mut b = Vec::with_capacity(40 + m.payload.len());
+    b.extend_from_slice(&m.reception_time_us.to_le_bytes());
+    b.extend_from_slice(&m.ecu.as_u32le().to_le_bytes());
+    b.extend_from_slice(&m.timestamp_dms.to_le_bytes());
+    b.push(m.standard_header.mcnt);
+    if let Some(e) = &m.extended_header {
+        b.push(e.verb_mstp_mtin);
+        b.push(e.noar);
+        b.extend_from_slice(&e.apid.as_u32le().to_le_bytes());
+        b.extend_from_slice(&e.ctid.as_u32le().to_le_bytes());
+    }
+    b.extend_from_slice(&m.payload);
+    hash31(&b)
 }
 
 fn msg_hash(m: &DltMessage) -> u32 {
@@ -285,7 +304,17 @@ fn run_pipeline(spec: &PipeSpec, msgs: &[DltMessage], caps: &[usize], pacing: &P
         rx_from_plugin_thread
     };
     let t4_input: Receiver<DltMessage> = if spec.filter {
-        let filters = vec![adlt::filter::Filter::from_json(r#"{"type":1,"apid":"DROP"}"#).expect("filter")];
+        let fj: &[&str] = match spec.filter_kind {
+            0 => &[r#"{"type":1,"apid":"DROP"}"#],
+            1 => &[r#"{"type":0,"apid":"APID"}"#, r#"{"type":0,"ecu":"ECUD"}"#],
+            _ => &[r#"{"type":0,"apid":"APID"}"#, r#"{"type":1,"ctid":"SKIP"}"#, r#"{"type":0,"apid":"DA1"}"#],
+        };
+        let filters: Vec<adlt::filter::Filter> = if spec.filter_kind == 9 {
+            // what `adlt convert --filter_file` reads from a dlt-convert format file
+            adlt::filter::functions::filters_from_convert_format(std::io::BufReader::new(CONVERT_FILTER_FILE)).expect("filters")
+        } else {
+            fj.iter().map(|j| adlt::filter::Filter::from_json(j).expect("filter")).collect()
+        };
         let (tx_filter, rx_filter) = sync_channel::<DltMessage>(next_cap());
         others.push(spawn_stage("filter", &done_tx, move || {
             let _ = adlt::filter::functions::filter_as_streams(&filters, &rx_final, &|m| sync_sender_send_delay_if_full(m, &tx_filter));
@@ -333,6 +362,7 @@ fn run_pipeline(spec: &PipeSpec, msgs: &[DltMessage], caps: &[usize], pacing: &P
     let poll_every = pacing.poll_every.max(1);
     // consumer = this thread
     let mut recv: Vec<(i64, u32, u32)> = Vec::new();
+    let mut file_hashes: Vec<u32> = Vec::new();
     let mut rx_opt = Some(t4_input);
     let ended;
     loop {
@@ -378,6 +408,7 @@ fn run_pipeline(spec: &PipeSpec, msgs: &[DltMessage], caps: &[usize], pacing: &P
             Ok(m) => {
                 let idx = if m.payload.len() >= 4 { u32::from_le_bytes(m.payload[0..4].try_into().unwrap()) as i64 } else { -1 };
                 recv.push((idx, m.lifecycle, msg_hash(&m)));
+                file_hashes.push(file_hash(&m));
                 if recv.len() % poll_every == 0 {
                     obs_consumer.poll(&lcs_r);
                 }
@@ -469,7 +500,7 @@ fn run_pipeline(spec: &PipeSpec, msgs: &[DltMessage], caps: &[usize], pacing: &P
             let _ = h.join();
         }
     }
-    RunOut { recv, ended, joined, timeouts, panics, table, full_hits, folds, poll_seq }
+    RunOut { recv, ended, joined, timeouts, panics, table, full_hits, file_hashes, folds, poll_seq }
 }
 
 // ------------------------------------------------------------------------------------------------ streams
@@ -535,8 +566,80 @@ fn add_late_ecu(rng: &mut Rng, msgs: &mut [DltMessage]) {
     }
 }
 
+/// interim lifecycles that get merged again: a message whose timestamp is (nearly) zero in the middle of a boot looks like
+/// a reboot (the detector opens a new, buffered lifecycle); the next ordinary message of the ECU pulls that lifecycle's
+/// start back before the end of the previous one, so it is merged into it - while the previous one is still buffered
+/// (early glitch) or already confirmed (late glitch). Also control requests (the logger's clock) in between.
+fn add_glitches(rng: &mut Rng, msgs: &mut [DltMessage]) {
+    let n = msgs.len();
+    if n < 10 {
+        return;
+    }
+    for _ in 0..rng.range(1, 3) {
+        let i = rng.range(2, (n - 3) as u64) as usize;
+        if msgs[i].ecu == char4("ECUD") {
+            continue;
+        }
+        if rng.chance(1, 3) {
+            let eh = msgs[i].extended_header.as_mut().unwrap();
+            eh.verb_mstp_mtin = (1 << 4) | (3 << 1); // control request
+            eh.apid = char4("DA1");
+            eh.ctid = char4("DC1");
+            msgs[i].timestamp_dms = rng.below(100_000) as u32;
+        } else {
+            // timestamp 0: the detector does not apply its "would move the start by > 60 s" guard to such a lifecycle, so late
+            // in a boot it is merged into the already CONFIRMED previous one; a small timestamp: merged while still buffered
+            msgs[i].timestamp_dms = if rng.chance(1, 2) { 0 } else { rng.range(10, 20_000) as u32 };
+        }
+    }
+}
+
+/// a lifecycle that is confirmed AND published and still gets merged: ECUB logs a message with timestamp 0 (the detector
+/// opens lifecycle 2 for it) and falls silent for > 60 s, so lifecycle 2 is confirmed by the "older than the buffering
+/// delay" rule - while its only message is still queued behind the first message of ECUD, which appeared shortly before and
+/// is not confirmed yet. ECUB's next ordinary message pulls lifecycle 2 back into the confirmed lifecycle 1: merged, and the
+/// published entry is withdrawn (lifecycle/mod.rs 731-741). ECUA keeps the stream going all the time.
+fn gen_confirmed_merge_stream(rng: &mut Rng) -> Vec<DltMessage> {
+    let mut ev: Vec<(u64, &str, Option<u64>)> = Vec::new(); // (rx ms, ecu, forced timestamp ms)
+    let t0: u64 = 130_000 + rng.below(20_000);
+    let step = rng.range(1500, 2500);
+    let mut t = 0;
+    while t < t0 + 135_000 {
+        ev.push((t, "ECUA", None));
+        let x_silent = t > t0 + 5_000 && t < t0 + 78_000 + rng.below(3) * 1000;
+        if !x_silent {
+            ev.push((t + 300, "ECUB", None));
+        }
+        t += step;
+    }
+    ev.push((t0 + 5_000, "ECUB", Some(0))); // the glitch
+    let mut d = t0;
+    while d < t0 + 45_000 {
+        ev.push((d + 100, "ECUD", None));
+        d += rng.range(3000, 6000);
+    }
+    ev.sort_by_key(|e| e.0);
+    let base_ms: u64 = 1_000_000;
+    let boots = [("ECUA", base_ms - 30_000), ("ECUB", base_ms - 20_000), ("ECUD", base_ms + t0 - 3_000)];
+    ev.iter()
+        .enumerate()
+        .map(|(i, (rx, ecu, forced))| {
+            let rx_ms = base_ms + rx;
+            let boot = boots.iter().find(|b| b.0 == *ecu).unwrap().1;
+            let ts_ms = forced.unwrap_or(rx_ms - boot - rng.below(40));
+            let mut pl = (i as u32).to_le_bytes().to_vec();
+            pl.push((i % 251) as u8);
+            let mut m = mk_msg(i as u32, ecu, BASE_US + rx_ms * 1000, (ts_ms * 10) as u32, pl);
+            if i % 7 == 3 {
+                m.extended_header.as_mut().unwrap().apid = char4("DROP");
+            }
+            m
+        })
+        .collect()
+}
+
 fn spec_from_kinds(kinds: &[String], remote: bool) -> PipeSpec {
-    let mut s = PipeSpec { remote_wiring: remote, plugin: 0, sort: false, filter: false };
+    let mut s = PipeSpec { remote_wiring: remote, plugin: 0, sort: false, filter: false, filter_kind: 0 };
     let heap_at = kinds.iter().position(|k| k == "heap");
     for (i, k) in kinds.iter().enumerate().skip(1) {
         match k.as_str() {
@@ -791,6 +894,108 @@ fn remote_drop_case(t: &mut Trace, case: u64, adlt_bin: &str, work: &str, shape:
     server.stop();
 }
 
+// `adlt convert` as a whole (convert.rs 595-657 wiring, producer loop, joins): the same log through the binary and through the
+// library pipeline with channels that never fill; and the consumer (writer thread) failing: -o /dev/full
+const CONVERT_FILTER_FILE: &[u8] = b"APID CTID ";
+
+fn seq_bag(h: &[u32]) -> (u32, u32) {
+    let mut seq: u64 = 7;
+    let mut bag: u64 = 0;
+    for x in h {
+        seq = (seq * 31 + *x as u64) % 2147483647;
+        bag = (bag + *x as u64) % 2147483647;
+    }
+    (seq as u32, bag as u32)
+}
+fn read_dlt_file(path: &str) -> Vec<DltMessage> {
+    match std::fs::File::open(path) {
+        Ok(f) => {
+            let rd = adlt::utils::LowMarkBufReader::new(f, 512 * 1024, adlt::dlt::DLT_MAX_STORAGE_MSG_SIZE);
+            adlt::utils::get_dlt_message_iterator("dlt", 0, rd, adlt::utils::get_new_namespace(), None, None, None).collect()
+        }
+        Err(_) => Vec::new(),
+    }
+}
+
+fn convert_case(t: &mut Trace, case: u64, adlt_bin: &str, work: &str, shape: &str, n: usize, seed: u64) {
+    use std::io::Write;
+    let dir = format!("{}/convert-{}", work, case);
+    let _ = std::fs::remove_dir_all(&dir);
+    std::fs::create_dir_all(&dir).unwrap();
+    let mut rng = Rng::new(seed ^ case);
+    let mut msgs = gen_stream(&mut rng, n, true);
+    add_late_ecu(&mut rng, &mut msgs);
+    let inp = format!("{}/in.dlt", dir);
+    {
+        let mut w = std::io::BufWriter::new(std::fs::File::create(&inp).unwrap());
+        for m in &msgs {
+            m.to_write(&mut w).expect("write log");
+        }
+        w.flush().unwrap();
+    }
+    // reference: what convert reads, through the same stages with channels that cannot fill
+    let parsed = read_dlt_file(&inp);
+    let all = shape == "full"; // every optional stage: FileTransfer plugin, time sort, filter
+    let spec = PipeSpec { remote_wiring: false, plugin: if all || shape == "plugin" { 2 } else { 0 }, sort: all || shape == "sort",
+                          filter: all || shape == "filter", filter_kind: 9 };
+    let r = run_pipeline(&spec, &parsed, &vec![parsed.len() + 8; spec.nchan()], &Pacing::default());
+    let (rseq, rbag) = seq_bag(&r.file_hashes);
+    t.ev(json!({"ev":"reset","case":case,"hdr":{"kind":"convert","shape":shape,"sorted":spec.sort,"n_in":parsed.len(),
+        "ref_count":r.file_hashes.len(),"ref_seq":rseq,"ref_bag":rbag,"ref_ok":matches!(r.ended, Ended::Eos) && r.panics.is_empty()}}));
+    let out = if shape == "devfull" { "/dev/full".to_string() } else { format!("{}/out.dlt", dir) };
+    let mut args: Vec<String> = vec!["convert".into()];
+    if spec.sort {
+        args.push("--sort".into());
+    }
+    if spec.plugin > 0 {
+        args.push("--file_transfer=*.bin".into());
+        args.push("--file_transfer_path".into());
+        args.push(format!("{}/ft", dir));
+    }
+    if spec.filter {
+        let ff = format!("{}/filter.txt", dir);
+        std::fs::write(&ff, CONVERT_FILTER_FILE).unwrap();
+        args.push("-f".into());
+        args.push(ff);
+    }
+    args.push("-o".into());
+    args.push(out.clone());
+    args.push(inp.clone());
+    let mut child = std::process::Command::new(adlt_bin)
+        .args(&args)
+        .env("TZ", "UTC")
+        .env_remove("RUST_LOG")
+        .stdin(std::process::Stdio::null())
+        .stdout(std::fs::File::create(format!("{}/stdout.txt", dir)).unwrap())
+        .stderr(std::fs::File::create(format!("{}/stderr.txt", dir)).unwrap())
+        .spawn()
+        .expect("spawn adlt convert");
+    let t0 = Instant::now();
+    let mut timed_out = false;
+    let code = loop {
+        match child.try_wait() {
+            Ok(Some(st)) => break st.code().unwrap_or(-1),
+            _ => {
+                if t0.elapsed() > Duration::from_secs(120) {
+                    let _ = child.kill();
+                    let _ = child.wait();
+                    timed_out = true;
+                    break -2;
+                }
+                std::thread::sleep(Duration::from_millis(20));
+            }
+        }
+    };
+    t.ev(json!({"ev":"convert_exit","code":code,"timed_out":timed_out,"waited_ms":t0.elapsed().as_millis() as u64}));
+    if shape != "devfull" {
+        let o: Vec<u32> = read_dlt_file(&out).iter().map(file_hash).collect();
+        let (seq, bag) = seq_bag(&o);
+        t.ev(json!({"ev":"convert_out","count":o.len(),"seq":seq,"bag":bag}));
+    }
+    t.ev(json!({"ev":"end"}));
+    let _ = std::fs::remove_dir_all(&dir);
+}
+
 fn remote_drop_main(a: &Args) {
     let mut t = Trace::create(&a.str("--out", "trace-remote.ndjson"));
     let adlt_bin = a.str("--adlt", "");
@@ -847,10 +1052,16 @@ fn remote_drop_main(a: &Args) {
             t.ev(e);
         }
     }
+    let cshapes: Vec<String> = a.str("--convert", "").split(',').filter(|s| !s.is_empty()).map(|s| s.to_string()).collect();
+    let n_conv = a.num("--convert-n", 30_000) as usize;
+    let seed = a.num("--seed", 1);
+    for (i, sh) in cshapes.iter().enumerate() {
+        convert_case(&mut t, first + 100 + i as u64, &adlt_bin, &work, sh, n_conv, seed);
+    }
     t.flush();
     let _ = std::fs::remove_file(&huge);
     let _ = std::fs::remove_file(&huge2);
-    println!("{}", json!({"cases": shapes.len(), "lines": t.lines}));
+    println!("{}", json!({"cases": shapes.len() + cshapes.len(), "lines": t.lines}));
 }
 
 fn main() {
@@ -897,6 +1108,11 @@ fn main() {
             if rng2.chance(1, 2) {
                 add_late_ecu(&mut rng2, &mut msgs);
             }
+            if rng2.chance(1, 3) {
+                add_glitches(&mut rng2, &mut msgs);
+            }
+            let mut spec = spec;
+            spec.filter_kind = rng2.below(3) as u8;
             // abstract positions (0..nmsgs of the model) are mapped proportionally onto the real stream
             let nm = scn["nmsgs"].as_u64().unwrap().max(1) as usize;
             let nout = scn["nout"].as_u64().unwrap().max(1) as usize;
@@ -941,7 +1157,7 @@ fn main() {
         }
         let cno = case - 1;
         let mut rng = Rng::new(seed.wrapping_mul(7_000_003).wrapping_add(r));
-        let mut spec = PipeSpec { remote_wiring: rng.chance(1, 2), plugin: rng.below(4) as u8, sort: rng.chance(1, 3), filter: rng.chance(1, 2) };
+        let mut spec = PipeSpec { remote_wiring: rng.chance(1, 2), plugin: rng.below(4) as u8, sort: rng.chance(1, 3), filter: rng.chance(1, 2), filter_kind: 0 };
         if spec.remote_wiring {
             spec.filter = false;
         }
@@ -952,6 +1168,14 @@ fn main() {
         if rng2.chance(1, 3) {
             add_late_ecu(&mut rng2, &mut msgs);
         }
+        if rng2.chance(1, 3) {
+            add_glitches(&mut rng2, &mut msgs);
+        }
+        if r % 12 == 11 {
+            msgs = gen_confirmed_merge_stream(&mut rng2);
+        }
+        let n = msgs.len();
+        spec.filter_kind = rng2.below(3) as u8;
         let small = rng.chance(2, 3); // mostly the capacities where the Full branch is the normal case
         let caps: Vec<usize> = (0..spec.nchan()).map(|_| if small { *rng.pick(&cap_alphabet[0..3]) } else { *rng.pick(&cap_alphabet) }).collect();
         let mut pacing = Pacing { poll_every: *rng2.pick(&[1usize, 1, 3, 7]), obs_sleep_us: *rng2.pick(&[200u64, 500, 3000]), ..Default::default() };
@@ -993,12 +1217,12 @@ fn main() {
         let mut rng = Rng::new(seed.wrapping_mul(9_000_011).wrapping_add(r));
         // pipelines with and without filter / sort / plugin stages
         let spec = match r % 6 {
-            0 => PipeSpec { remote_wiring: false, plugin: 0, sort: false, filter: true },
-            1 => PipeSpec { remote_wiring: false, plugin: 3, sort: true, filter: true },
-            2 => PipeSpec { remote_wiring: true, plugin: 1, sort: false, filter: false },
-            3 => PipeSpec { remote_wiring: false, plugin: 2, sort: false, filter: true },
-            4 => PipeSpec { remote_wiring: true, plugin: 0, sort: true, filter: false },
-            _ => PipeSpec { remote_wiring: false, plugin: 0, sort: false, filter: false },
+            0 => PipeSpec { remote_wiring: false, plugin: 0, sort: false, filter: true, filter_kind: 0 },
+            1 => PipeSpec { remote_wiring: false, plugin: 3, sort: true, filter: true, filter_kind: 0 },
+            2 => PipeSpec { remote_wiring: true, plugin: 1, sort: false, filter: false, filter_kind: 0 },
+            3 => PipeSpec { remote_wiring: false, plugin: 2, sort: false, filter: true, filter_kind: 0 },
+            4 => PipeSpec { remote_wiring: true, plugin: 0, sort: true, filter: false, filter_kind: 0 },
+            _ => PipeSpec { remote_wiring: false, plugin: 0, sort: false, filter: false, filter_kind: 0 },
         };
         let n = rng.range(30, 70) as usize;
         // variant: 0 producer stall mid-stream (stream spans minutes: the lifecycle stage already forwards),
@@ -1015,6 +1239,11 @@ fn main() {
         if r % 2 == 1 {
             add_late_ecu(&mut rng2, &mut msgs);
         }
+        if r % 3 == 2 {
+            add_glitches(&mut rng2, &mut msgs);
+        }
+        let mut spec = spec;
+        spec.filter_kind = (r % 3) as u8;
         let caps: Vec<usize> = (0..spec.nchan()).map(|_| *rng.pick(&cap_alphabet[0..3])).collect();
         let mut pacing = Pacing { poll_every: *rng2.pick(&[1usize, 3]), obs_sleep_us: *rng2.pick(&[200u64, 3000]), ..Default::default() };
         pacing.c_style = (r % 4) as u8;
